@@ -525,7 +525,10 @@ class C12(Monitor):
     def programs(self):
         out = list(spaces.with_modes(spaces.prog_Pa()))
         n = 600 if self.tier == "quick" else 2400
-        return spaces.spread(out, n) + list(spaces.prog_Q()) + list(spaces.prog_P1())
+        # an integer constant with more decimal digits than the interpreters' int->str
+        # limit (4300): to_json_data must refuse it the same way every time
+        huge = [{"k": "src", "s": "HP", "src": "v = 0x1" + "0" * 4000 + "\nw = 2**70\n", "mode": "exec", "opt": 0}]
+        return spaces.spread(out, n) + list(spaces.prog_Q()) + list(spaces.prog_P1()) + huge
 
     def cases(self):
         for c in self.programs():
@@ -589,8 +592,21 @@ class C12(Monitor):
         try:
             with horizon(H):
                 st0 = self.fresh_store(code)
-        except Exception:
+        except Exception as e:
             stats.skipped["store-setup-raises"] += 1
+            if only is None:
+                # still subject to the end-of-process recheck: it must fail the same way
+                twin = ref.code_replace(code, co_filename="<verif-twin>")
+                first = {}
+                for label, obj in (("c", code), ("twin", twin)):
+                    try:
+                        d = CodeData.from_code(obj)
+                        first[label] = (skey(d, True), skey(d.normalize(), True), jkey(d.to_json_data()))
+                    except Exception as e2:
+                        first[label] = ("raises", type(e2).__name__)
+                if not hasattr(self, "recheck"):
+                    self.recheck = []
+                self.recheck.append((case, code, twin, first))
             return
         stats.evaluations += 1
         stats.nontriv(code_key(code))
